@@ -16,6 +16,11 @@ def formOf (form : String) : FromStr.PForm :=
   | "wrapping" | "wtype" => .wrapping      -- "wtype": `Wrapping::<F>::from_str[_binary|_octal|_hex]` = `F::wrapping_from_str…` (`wrapping.rs`)
   | _ => .overflowing        -- "hook", "overflowing"
 
+/-- `impl Display for ParseFixedError` (`message()` of `from_str.rs`), by error kind -/
+def errMessage (k : Nat) : String :=
+  if k = 0 then "invalid digit found in string" else if k = 1 then "string has no digits"
+  else if k = 2 then "more than one decimal point found in string" else "overflow"
+
 def ansStr : FromStr.PAns → String
   | .err k => s!"E:{k}"
   | .val v => s!"O:{v}"
@@ -23,10 +28,12 @@ def ansStr : FromStr.PAns → String
 
 /-- model answer for a parse request: `FromStr.parse` (the form wrappers are part of the model) -/
 def parseModel (p : Profile) (L : Layout) (form : String) (radix : Nat) (bytes : List Nat) : Option String :=
-  (FromStr.parse L (formOf form) radix bytes).map fun o =>
+  (FromStr.parse L (if form == "errmsg" then .plain else formOf form) radix bytes).map fun o =>
     match o with
     | .panic => "P"
-    | .ok r d => if p = .chk && d then "P" else ansStr r
+    | .ok r d => if p = .chk && d then "P" else
+      if form == "errmsg" then (match r with | .err k => Codec.hex ((errMessage k).toUTF8.toList.map (·.toNat)) | _ => "O")
+      else ansStr r
 
 /-- documented answer: `E:m` stands for "some error other than overflow" -/
 def parseSpec (L : Layout) (form : String) (radix : Nat) (bytes : List Nat) : String :=
@@ -35,7 +42,7 @@ def parseSpec (L : Layout) (form : String) (radix : Nat) (bytes : List Nat) : St
   | some E =>
     match form with
     | "hook" | "overflowing" => s!"O:{L.wrap E},{b01 (!decide (inRange L E))}"
-    | "plain" => if inRange L E then s!"O:{E}" else "E:3"
+    | "plain" | "errmsg" => if inRange L E then s!"O:{E}" else "E:3"
     | "wrapping" | "wtype" => s!"O:{L.wrap E}"
     | _ => s!"O:{L.clamp E}"
 
@@ -99,7 +106,13 @@ def verdict (L : Layout) (op : String) (a : List String) (ans : String) : Option
     match radix.toNat?, Codec.unhex h with
     | some r, some bs =>
       let sp := parseSpec L form r bs
-      if sp == "E:m" then (if ans == "E:0" || ans == "E:1" || ans == "E:2" then none else some s!"expected a malformed-literal error")
+      let msgHex := fun (k : Nat) => Codec.hex ((errMessage k).toUTF8.toList.map (·.toNat))
+      if form == "errmsg" then
+        -- documented: a parse error prints its message; overflow exactly when the rounded value is out of range
+        (if sp == "E:m" then (if ans == msgHex 0 || ans == msgHex 1 || ans == msgHex 2 then none else some "expected the message of a malformed-literal error")
+         else if sp == "E:3" then (if ans == msgHex 3 then none else some "expected the overflow message")
+         else if ans == "O" then none else some "expected the literal to parse")
+      else if sp == "E:m" then (if ans == "E:0" || ans == "E:1" || ans == "E:2" then none else some s!"expected a malformed-literal error")
       else if sp == ans then none else some s!"expected {sp}"
     | _, _ => none
   else if op == "h_fmt" || op == "f_fmt" then
